@@ -1432,6 +1432,9 @@ class Walker:
             lit = self.eng.const_literal(it[1][6:])
             if lit is not None and is_lit(lit, "tuple") and len(lit[2]) <= self.UNROLL_MAX:
                 return list(lit[2])
+            tab = self.eng.stable_table(it)
+            if tab is not None and len(tab[2]) <= self.UNROLL_MAX:
+                return [k for k, _v in tab[2]]  # iterating a table of constants: its keys, in order
             return None
         if isinstance(it, tuple) and len(it) == 3 and it[0] == "nt":
             return list(it[2])
@@ -2508,6 +2511,15 @@ class Walker:
                 lit = self.eng.const_literal(b[1][6:])
                 if lit is not None and ((is_lit(lit) and lit[1] == "tuple") or lit[0] == "nt"):
                     b = lit  # a module-level tuple / record: immutable, its items are known
+                elif is_const(k):
+                    tab = self.eng.stable_table(b)
+                    if tab is not None:
+                        hit = [v for kk, v in tab[2] if kk == k]
+                        if hit:
+                            outs.append((s, "val", hit[-1]))
+                        else:
+                            self.rz(outs, s, e, "KeyError", "key %r is not in the table %s" % (k[2], b[1][6:]), [])
+                        continue
             if is_const(k) and isinstance(k[2], bool):
                 k = C(int(k[2]))  # a bool used as an index is 0 / 1
             t = Sub(b, k)
